@@ -22,12 +22,35 @@ def infoOf (nd : Node) : LineInfo :=
   { char := nd.char, perr := nd.indentError,
     kind := if nd.ws then .ws else if nd.opener then .opener else .leaf }
 
-def nodesOf (fx : Bool) (uod : List String) (text : List Char) : List Node :=
-  (splitLines text).map (parseLine fx uod)
+def nodesOf (fx fe : Bool) (uod : List String) (text : List Char) : List Node :=
+  (splitLines text).map (parseLineE fx fe uod)
 
 /-- the parsed program of `text` in pre-order: (line number, parent line number, indent_error, …).
-    `fxLine`/`fxIndent`: with the C18 / C17 repair. -/
-def parseText (fxLine fxIndent : Bool) (uod : List String) (text : List Char) : List Row :=
-  parseRows fxIndent ((nodesOf fxLine uod text).map infoOf)
+    `fxLine`/`fxIndent`: with the C18 / C17 repair; `fe`: with the error-line repair. -/
+def parseText (fxLine fe fxIndent : Bool) (uod : List String) (text : List Char) : List Row :=
+  parseRows fxIndent ((nodesOf fxLine fe uod text).map infoOf)
+
+/-! ### vocabulary of C17 on the TEXT -/
+
+/-- indentation of a line of text: its leading white space, whether or not the rest parses -/
+def srcIndent (cs : List Char) : Nat := (cs.takeWhile isSpace).length
+
+/-- what the indentation discipline reads from a line of text: the indentation of the TEXT (not the column the
+    parser assigned), "not a multiple of four" for instruction lines, and the kind of the node -/
+def srcInfoOf (nd : Node) (cs : List Char) : LineInfo :=
+  { char := srcIndent cs, kind := (infoOf nd).kind, perr := !nd.ws && srcIndent cs % 4 != 0 }
+
+def srcInfos (fx fe : Bool) (uod : List String) (text : List Char) : List LineInfo :=
+  (splitLines text).map (fun cs => srcInfoOf (parseLineE fx fe uod cs) cs)
+
+/-- the line is blank, a comment, or matches the instruction pattern -/
+def scannable (cs : List Char) : Bool :=
+  match strip cs with
+  | [] => true
+  | c :: _ => c == '#' || (scanLine cs).isSome
+
+def AllScannable (text : List Char) : Prop := ∀ cs ∈ splitLines text, scannable cs = true
+
+instance (text : List Char) : Decidable (AllScannable text) := by unfold AllScannable; infer_instance
 
 end OPM.ParseText
